@@ -197,6 +197,7 @@ void run_cfg(vf::Ctx &c, const Cfg &cfg) {
   int nexp = 1;
   c.stage("run");
   vfs::begin(c);
+  vfs::set_post_release_points(true);  // also separate plain accesses from the unlock before them
   if (cfg.mode == 0) {
     if (cfg.kind == 0) run_simple<sdkt::SimpleSpanProcessor, SpanExp, sdkt::Recordable, SpanRec>(c, cfg, [](sdkt::SimpleSpanProcessor &p, std::unique_ptr<sdkt::Recordable> r) { p.OnEnd(std::move(r)); });
     else run_simple<sdkl::SimpleLogRecordProcessor, LogExp, sdkl::Recordable, LogRec>(c, cfg, [](sdkl::SimpleLogRecordProcessor &p, std::unique_ptr<sdkl::Recordable> r) { p.OnEmit(std::move(r)); });
